@@ -36,6 +36,7 @@ TECH = {
  "R32": "dominance of an index lookup over every opening of a segment's log file",
  "R33": "def-use classification of every value stored into Message.Time on the publish path",
  "R34": "def-use classification of the directory argument at every Segment constructor call site",
+ "R40": "use analysis of the error result of every error-returning call site in the module against an enumerated list of accepted clean-up idioms",
  "R39": "def-use (through helper parameters to their callers) of every value stored into index.Params.Times / Params.Keys",
  "R37": "def-use and dominance over the finder loops: cursor phi of Consume, origin of every key inserted into the result set, dominance of each selection by the bound comparison on the same message, key/value arguments of the key tree",
  "R38": "def-use from each finder call to the delete sink (same value, unmodified, on the success edge) and origin of the set the multi-segment drivers pass to Log.Delete",
